@@ -154,6 +154,22 @@ CLAIMED["C09"] = dict(
          "a_mu between parametrisations; aligned <-> general with Pi_f encoding the same couplings.",
     ref="3 C09")
 
+CLAIMED["C20"] = dict(
+    category="other",
+    technique="polynomial identity checking of symbolically folded code (CKM unitarity modulo s^2+c^2=1, |e|=1; "
+              "electroweak relations), control-dependence and who-may-call rules, may-throw coverage of the "
+              "Lambda_QCD handler",
+    text="The standard CKM parametrisation is folded into a 3x3 matrix of polynomials and V V^dagger = 1 is "
+         "shown as an identity (9 entries) -- valid for all angles and phases, not for sampled ones -- and every "
+         "producer of a CKM matrix returns only through it or throws after a range check; the derived "
+         "electroweak quantities satisfy their defining relations as identities of the getter terms; the "
+         "running-mass routines are applied under exactly running_couplings && scale > 0 to the third "
+         "generation and are called nowhere else; a failed Lambda_QCD bracket is caught, warned about and "
+         "leaves the default.",
+    note=TRUST + "Not decided: positivity, monotonicity, boundary values and composition of the running masses "
+         "(numerical); floating-point unitarity to 1e-14 (the algebraic formula is exact).",
+    ref="3 C20")
+
 NOT_APPLICABLE = {
     "C03": "numerical agreement of one-loop results with an independent higher-precision evaluation over all "
            "parameter points: depends on eigen-decomposition values; no code-shape clause of its own "
